@@ -12,5 +12,6 @@ CONSTANTS
   BareUpdate = "refused"
   Sizes = {0}
   ReadLimit = 0
+  OwnFrame = TRUE
 INVARIANTS StoredForm ReadBack OnlyWhenEnabled OffMeansOff
 CHECK_DEADLOCK FALSE
